@@ -872,7 +872,8 @@ fn eval_c28(case: &RenCase, acc: &Acc) -> Vec<Violation> {
     });
     if case.only.is_none() {
         // every non-start non-terminal and every non-INITIAL state must be renameable somewhere
-        for n in nts.iter().filter(|n| **n != gc0.cfg.st).chain(states.iter().filter(|s| *s != "INITIAL")) {
+        let in_text = |n: &String| par_tokens(&case.text).iter().any(|t| t.0 == "ident" && t.1 == *n);
+        for n in nts.iter().filter(|n| **n != gc0.cfg.st && in_text(n)).chain(states.iter().filter(|s| *s != "INITIAL")) {
             if !renamed_ok.contains(n) && !out.iter().any(|v| v.what.contains(&format!("renaming {n} "))) {
                 out.push(mkv("symbol_cannot_be_renamed_anywhere", format!("{short}: no position yields a consistent rename of {n}"), (0, 0)));
             }
